@@ -168,6 +168,79 @@ example : exampleInterpZero.WF = true ∧ exampleInterpZero.interpEndNonzero = f
 example : Der Grammar.dataParser.productions "data_input" exampleInterpZero.classes :=
   C12_cfg_montepy.2.2.1 exampleInterpZero (by decide) (by decide)
 
+/-! ### the families added in round 4: tally, FS, SDEF, SI/SP/SB/DS with an option letter -/
+
+/-- for ANY production list containing the required productions: every well-formed F card (bins, groups with
+    gaps, total), FS card, SDEF card (numbers, `dN`, particle values; possibly no parameter) and lettered
+    SI/SP/SB/DS card derives from the start symbol of its parser -/
+def C12_cfg_extended_statement : Prop :=
+  (∀ P : Prods, reqTally ⊆ P → ∀ lead c g0 items total, (XCard.mk lead c g0 (.tally items total)).WF = true →
+      Der P "tally" (XCard.mk lead c g0 (.tally items total)).classes) ∧
+  (∀ P : Prods, reqTallySeg ⊆ P → ∀ lead c g0 es total, (XCard.mk lead c g0 (.segments es total)).WF = true →
+      Der P "tally" (XCard.mk lead c g0 (.segments es total)).classes) ∧
+  (∀ P : Prods, reqSdef ⊆ P → ∀ lead c g0 ps, (XCard.mk lead c g0 (.sdef ps)).WF = true →
+      Der P "param_data_input" (XCard.mk lead c g0 (.sdef ps)).classes) ∧
+  (∀ P : Prods, reqLettered ⊆ P → ∀ lead c g0 l g es, (XCard.mk lead c g0 (.lettered l g es)).WF = true →
+      Der P "data_input" (XCard.mk lead c g0 (.lettered l g es)).classes)
+
+theorem C12_cfg_extended : C12_cfg_extended_statement :=
+  ⟨fun _ h lead c g0 items total hw => tally_der h lead c g0 items total hw,
+   fun _ h lead c g0 es total hw => segments_der h lead c g0 es total hw,
+   fun _ h lead c g0 ps hw => sdef_der h lead c g0 ps hw,
+   fun _ h lead c g0 l g es hw => lettered_der h lead c g0 l g es hw⟩
+
+theorem C12_required_productions_extended :
+    reqTally ⊆ Grammar.tallyParser.productions ∧ reqTallySeg ⊆ Grammar.tallySegmentParser.productions ∧
+    reqSdef ⊆ Grammar.paramOnlyDataParser.productions ∧ reqLettered ⊆ Grammar.dataParser.productions ∧
+    Grammar.tallyParser.start = "tally" ∧ Grammar.tallySegmentParser.start = "tally" ∧
+    Grammar.paramOnlyDataParser.start = "param_data_input" := by
+  refine ⟨by decide, by decide, by decide, by decide, by decide, by decide, by decide⟩
+
+/-- instantiated with the extracted grammars -/
+theorem C12_cfg_extended_montepy :
+    (∀ lead c g0 items total, (XCard.mk lead c g0 (.tally items total)).WF = true →
+      Der Grammar.tallyParser.productions Grammar.tallyParser.start (XCard.mk lead c g0 (.tally items total)).classes) ∧
+    (∀ lead c g0 es total, (XCard.mk lead c g0 (.segments es total)).WF = true →
+      Der Grammar.tallySegmentParser.productions Grammar.tallySegmentParser.start
+        (XCard.mk lead c g0 (.segments es total)).classes) ∧
+    (∀ lead c g0 ps, (XCard.mk lead c g0 (.sdef ps)).WF = true →
+      Der Grammar.paramOnlyDataParser.productions Grammar.paramOnlyDataParser.start
+        (XCard.mk lead c g0 (.sdef ps)).classes) ∧
+    (∀ lead c g0 l g es, (XCard.mk lead c g0 (.lettered l g es)).WF = true →
+      Der Grammar.dataParser.productions Grammar.dataParser.start (XCard.mk lead c g0 (.lettered l g es)).classes) := by
+  obtain ⟨h1, h2, h3, h4, s1, s2, s3⟩ := C12_required_productions_extended
+  have s4 := C12_required_productions.2.2.2.2.2.2.2.1
+  rw [s1, s2, s3, s4]
+  exact ⟨fun lead c g0 items total hw => C12_cfg_extended.1 _ h1 lead c g0 items total hw,
+    fun lead c g0 es total hw => C12_cfg_extended.2.1 _ h2 lead c g0 es total hw,
+    fun lead c g0 ps hw => C12_cfg_extended.2.2.1 _ h3 lead c g0 ps hw,
+    fun lead c g0 l g es hw => C12_cfg_extended.2.2.2 _ h4 lead c g0 l g es hw⟩
+
+/-- `*f14:n,p 1 ( 2 3) (4) t` -/
+def exampleTally : XCard where
+  lead := []
+  classifier := { star := true, starCls := "PARTICLE_SPECIAL", name := "f", nameCls := "PARTICLE", number := some "14",
+                  particles := ["n", "p"] }
+  g0 := [.space]
+  body := .tally [.bins [(.real ⟨"1", false⟩, [.space])],
+                  .group [.space] [(.real ⟨"2", false⟩, [.space]), (.real ⟨"3", false⟩, [])] [.space],
+                  .group [] [(.real ⟨"4", false⟩, [])] [.space]] (some ("t", []))
+
+example : exampleTally.WF = true := by decide
+example : exampleTally.render = ["*f14:n,p", "1", "(", "2", "3", ")", "(", "4", ")", "t"] := by decide
+
+/-- `sdef erg=d1 pos 0 0 0 par=n` and the bare `sdef` -/
+def exampleSdef : XCard where
+  lead := []
+  classifier := { star := false, name := "sdef", nameCls := "TEXT", number := none, particles := [] }
+  g0 := [.space]
+  body := .sdef [⟨"erg", ⟨[], true, []⟩, .dist "d" "1" [.space]⟩,
+                 ⟨"pos", ⟨[.space], false, []⟩, .nums [(.real ⟨"0", true⟩, [.space]), (.real ⟨"0", true⟩, [.space]),
+                    (.real ⟨"0", true⟩, [.space])]⟩,
+                 ⟨"par", ⟨[], true, []⟩, .particle "n" []⟩]
+example : exampleSdef.WF = true := by decide
+example : ({ exampleSdef with g0 := [], body := .sdef [] } : XCard).WF = true := by decide
+
 /-! ## C12_dispatch -/
 
 /-- (class, prefix) pairs of PREFIX_MATCHES -/
